@@ -21,9 +21,10 @@ ALPHABET = [0, 1, 2, 4, 8, 16, 32, 64, 128, 3]     # 3 = invalid code
 # other invalid codes: combinations, byte range ends, values whose low byte
 # or absolute value is a direction code, no-data style values
 INVALID = [3, 5, 255, 256, 257, 258, 260, 384, 513, -128, -1, -4, -9999,
-           1000, 2**31 - 1, -2**31, 65536 + 4]
+           1000, 2**31 - 1, -2**31, 65536 + 4, -2, -8, -16, -32, -64, 512,
+           1024, 2**30]
 INVALID64 = [2**32 + 16, 2**32 + 1, 2**33 + 4, 2**40 + 64, 2**62 + 128,
-             -(2**32) + 2, 2**32, 2**31 + 8, 2**63 - 1]
+             -(2**32) + 2, 2**32, 2**31 + 8, 2**63 - 1, 2**40, 2**62, -2**63]
 
 
 def down_model(fd):
